@@ -414,6 +414,7 @@ func bcRunCase(c *bcCase, hang time.Duration, st *bcStats) ([]bcEvent, error) {
 	}
 
 	diverged := false
+	silenced := false // the script asked for silence: the drive-to-completion phase must not answer
 	why := ""
 	stepNo := 0
 	wantWrites, wantRets, wantClosed, pending, slow := 0, 0, false, false, false
@@ -468,6 +469,7 @@ func bcRunCase(c *bcCase, hang time.Duration, st *bcStats) ([]bcEvent, error) {
 		case "timeout":
 			flush() // silence: the next gates wait for the read timeout to fail the call
 			slow = true
+			silenced = true
 		default:
 			return nil, fmt.Errorf("unknown step %q", s.A)
 		}
@@ -481,7 +483,7 @@ func bcRunCase(c *bcCase, hang time.Duration, st *bcStats) ([]bcEvent, error) {
 	for {
 		rec.mu.Lock()
 		left := len(outstanding)
-		canAnswer := len(srv.unans) > 0 && !srv.ended && !srv.closed
+		canAnswer := len(srv.unans) > 0 && !srv.ended && !srv.closed && !silenced
 		rec.mu.Unlock()
 		if left == 0 {
 			break
